@@ -6,7 +6,7 @@ from . import conform
 from .layout import Pipeline, payload, proj_item
 from .result import Result
 
-CFG = {"quick": ["MC_Inherit_q1.cfg"], "thorough": ["MC_Inherit_q1.cfg", "MC_Inherit_t1.cfg"]}
+CFG = {"quick": ["MC_Inherit_q1.cfg", "MC_Inherit_q2.cfg"], "thorough": ["MC_Inherit_q1.cfg", "MC_Inherit_q2.cfg", "MC_Inherit_t1.cfg"]}
 
 
 def field_chain_type(obs, start_path, fpath):
@@ -36,7 +36,8 @@ def eval_case(pid, pl, res, case, obs, kf_class=None):
         return
     problems = []
     for t in oracle["types"]:
-        path = ["m", t["name"]]
+        path = t["path"]
+        mp = path[:-1]
         it = proj_item(obs, path)
         if it is None or it.get("k") != "struct":
             problems.append(f"{t['name']}: struct not emitted")
@@ -49,7 +50,7 @@ def eval_case(pid, pl, res, case, obs, kf_class=None):
                     problems.append(f"{t['name']} has its own vftable pointer although its first base carries one")
                 if not acc.get("has") or acc.get("via") != t["firstBase"]:
                     problems.append(f"{t['name']}::vftable() does not return the pointer stored in base `{t['firstBase']}` (via={acc.get('via')})")
-                if t["ownBlock"] and acc.get("has") and acc.get("ty") != {"k": "cptr", "t": {"k": "raw", "p": ["m", t["name"] + "Vftable"]}}:
+                if t["ownBlock"] and acc.get("has") and acc.get("ty") != {"k": "cptr", "t": {"k": "raw", "p": mp + [t["name"] + "Vftable"]}}:
                     problems.append(f"{t['name']}::vftable() is not typed as the derived table ({acc.get('ty')})")
             elif t["ownBlock"]:
                 if fields[:1] != ["vftable"] or fields.count("vftable") != 1:
@@ -64,7 +65,7 @@ def eval_case(pid, pl, res, case, obs, kf_class=None):
                 if acc.get("has") or "vftable" in fields:
                     problems.append(f"{t['name']} has a vftable pointer/accessor although nothing declares one")
             if t["ownBlock"]:
-                tab = proj_item(obs, ["m", t["name"] + "Vftable"])
+                tab = proj_item(obs, mp + [t["name"] + "Vftable"])
                 want = [s["name"] for s in t["table"]]
                 got = [f["name"] for f in (tab or {}).get("fields", [])]
                 if tab is None or len(got) != len(want) or any(w and w != g for w, g in zip(want, got)):
@@ -100,7 +101,7 @@ def eval_case(pid, pl, res, case, obs, kf_class=None):
                             problems.append(f"{t['name']} {key}<{a['ty'].get('p')}> returns field {'.'.join(a['path'])} of type {ft}")
         elif pid == "C16":
             if t["ownBlock"]:
-                tab = proj_item(obs, ["m", t["name"] + "Vftable"])
+                tab = proj_item(obs, mp + [t["name"] + "Vftable"])
                 for i, (s, f) in enumerate(zip(t["table"], (tab or {}).get("fields", []))):
                     if f["ty"].get("k") == "fn" and f["ty"].get("cc") != s["cc"]:
                         problems.append(f"{t['name']}Vftable slot {i} `{f['name']}` has convention {f['ty'].get('cc')}, expected {s['cc']}")
